@@ -1,6 +1,7 @@
 import LdkModel.Driver.Util
 import LdkModel.Model.Noise
 import LdkModel.Model.Framing
+import LdkModel.Model.PeerMsgs
 import LdkModel.Prim.Sha256
 import LdkModel.Prim.Hkdf
 import LdkModel.Prim.ChaChaPoly
@@ -17,15 +18,21 @@ import LdkModel.Prim.ChaChaPoly
      decm <A|B> <box>      → plaintext hex | err
    model c15peer (two PeerManagers, or the harness speaking through `Enc` to one PeerManager):
      pconn                          → ok          (fresh in-sync sender/receiver, fresh gate)
-     f init|ping|pong <len>         → frame length (directive: plaintext = type ‖ zeros)
+     f init <len>                   → frame length (directive: plaintext = type ‖ zeros)
+     f ping <ponglen> <byteslen>    → frame length (directive: PeerMsgs.encodePing)
+     f pong <byteslen>              → frame length (directive: PeerMsgs.encodePong)
      f msg <type> <len> <seed>      → frame length (directive: generated payload)
      f raw <hex>                    → frame length (directive)
      run <corrupt_offset|-> <xor> <chunk sizes, comma separated>
                                     → n=<messages handed to the custom handler> d=<digest> <open|disc>
+                                      (PeerMsgs.nodeRun over the decrypted sequence: decode, Init gate, Ping / Pong arms)
+     replies                        → plaintext lengths of the messages the node built itself during the last
+                                      `run` (pongs, decode-failure warnings), comma separated, `-` = none
+     rcr <n>                        → wire length of a reply_channel_range carrying n short channel ids
      gate <hex>                     → one gateStep on a plaintext message (state kept): init|up|ignored|disc
 -/
 namespace Ldk.Driver
-open Ldk Ldk.Noise Ldk.Framing
+open Ldk Ldk.Noise Ldk.Framing Ldk.PeerMsgs
 
 /-- secp256k1 field prime -/
 def secpP : Nat := 2 ^ 256 - 2 ^ 32 - 977
@@ -72,6 +79,7 @@ structure C15St where
   prcv : Receiver := Receiver.start [] []
   stream : List Bytes := []     -- frames, newest first
   gate : Gate := Gate.start
+  lastReplies : List Bytes := []
 
 def ssArg (s : String) : Bytes → Bytes := fun _ => unhex s
 
@@ -94,6 +102,14 @@ def classify (t : Nat) : Kind :=
   else if t == 18 || t == 19 then .known
   else if t ≥ 32768 && t % 4 < 2 then .known
   else .unknown
+
+/-- `wire::read` on the non-control messages the harness sends: a channel_announcement / node_announcement /
+    channel_update too short to hold its leading 64-byte signature fails with ShortRead
+    (`is_gossip_msg` ⇒ warning, peer kept); everything else the harness sends decodes or is
+    `Message::Unknown` -/
+def otherDecode (m : Bytes) : Decoded :=
+  if (msgType m == 256 || msgType m == 257 || msgType m == 258) && m.length < 2 + 64 then .bogusGossip
+  else .ok
 
 def digestStep (h : Nat) (x : Nat) : Nat := (h * 1000003 + x) % 2305843009213693951
 
@@ -167,21 +183,24 @@ def c15step (st : C15St) (ws : List String) : C15St × String :=
     ({ st with psnd := { sk := peerKey, sn := 0, sck := peerCk },
                prcv := Receiver.start peerKey peerCk, stream := [], gate := Gate.start }, "ok")
   | ["f", "init", len] => pushFrame st (typed 16 (nat! len))
-  | ["f", "ping", len] => pushFrame st (typed 18 (nat! len))
-  | ["f", "pong", len] => pushFrame st (typed 19 (nat! len))
+  | ["f", "ping", pl, bl] => pushFrame st (encodePing (nat! pl) (nat! bl))
+  | ["f", "pong", bl] => pushFrame st (encodePong (nat! bl))
   | ["f", "msg", ty, len, seed] => pushFrame st (be16 (nat! ty) ++ genPayload (nat! len) (nat! seed))
   | ["f", "raw", h] => pushFrame st (unhex h)
   | ["run", off, x, sizes] =>
     let bytes := st.stream.reverse.flatten
     let bytes := if off == "-" then bytes else xorAt bytes (nat! off) (UInt8.ofNat (nat! x))
     let (delivered, r) := recvChunks c st.prcv (cutBy bytes (splitCommas sizes))
-    let outs := gateRun classify (fun _ => true) st.gate delivered
-    let ups := outs.filterMap (fun o => match o with
-      | .passUp m => if msgType m == 18 || msgType m == 19 then none else some m
-      | _ => none)
-    let dropped := r.isNone || outs.contains .disconnect
+    let evs := nodeRun classify (fun _ => true) otherDecode st.gate delivered
+    let ups := upsOf evs
+    let dropped := r.isNone || evs.contains .disc
     let d := ups.foldl digestMsg 7
-    ({ st with stream := [] }, s!"n={ups.length} d={d} {if dropped then "disc" else "open"}")
+    ({ st with stream := [], lastReplies := repliesOf evs },
+     s!"n={ups.length} d={d} {if dropped then "disc" else "open"}")
+  | ["replies"] =>
+    (st, if st.lastReplies.isEmpty then "-"
+         else ",".intercalate (st.lastReplies.map (fun r => toString r.length)))
+  | ["rcr", n] => (st, toString (replyChannelRangeLen (nat! n)))
   | ["gate", m] =>
     let (g1, o) := gateStep classify (fun _ => true) st.gate (unhex m)
     ({ st with gate := g1 }, match o with
